@@ -626,6 +626,9 @@ def random_spec(rng):
             events.append([ev, grp, rng.choice(states + [None])])
         if not any(e[0] == ev for e in events):
             events.append([ev, None, rng.choice(states)])
+        if rng.random() < 0.08 and not any(e[0] == ev and e[1] is None for e in events):
+            # a rule with an empty list of source states defines no transition at all
+            events.append([ev, [], rng.choice(states)])
     spec = {'states': states, 'events': events, 'timers': {}, 'union': rng.random() < 0.5,
             'calc': rng.choice(['state', 'upper', 'index', 'parity', 'keep_last']),
             'cond_m': {}, 'cond_i': {}, 'enter_m': {}, 'enter_i': {}, 'exit_m': {}, 'exit_i': {},
